@@ -370,6 +370,23 @@ pub fn run(ctx: &Ctx) -> Report {
           }
         }
       }
+      // pairs: an inscription in one output together with an inscribed output elsewhere (both orders of
+      // the outpoints); explored with unmarked outputs only in the quick tier
+      let first_pair = other_sets.len();
+      for j in 0..n {
+        let v = w[j];
+        let mut o2: Vec<u64> = vec![0, 293, 294, 546, v.saturating_sub(1)];
+        o2.retain(|o| *o < v);
+        o2.sort();
+        o2.dedup();
+        for off in o2 {
+          for k in 0..n {
+            if k != j && !(thorough && k == j + 1) {
+              other_sets.push(vec![(j, off), (k, 0)]);
+            }
+          }
+        }
+      }
       let mark_choices = [Mark::Plain, Mark::Runic, Mark::Locked];
       let n_marks = 3usize.pow(n as u32);
       let mut targets: Vec<Tgt> = vec![Tgt::Postage];
@@ -380,7 +397,7 @@ pub fn run(ctx: &Ctx) -> Report {
         targets.push(Tgt::Value(v));
       }
       for off in &offs {
-        for others in &other_sets {
+        for (si, others) in other_sets.iter().enumerate() {
           // an inscription on the outgoing satpoint itself is the outgoing one: skip duplicates
           if others.iter().any(|(j, o)| *j == oi && *o == *off) {
             continue;
@@ -389,6 +406,9 @@ pub fn run(ctx: &Ctx) -> Report {
             let marks: Vec<Mark> = (0..n).map(|k| mark_choices[(m / 3usize.pow(k as u32)) % 3]).collect();
             // keep the space small: at most one locked and the outgoing output never locked
             if marks[oi] == Mark::Locked || marks.iter().filter(|x| **x == Mark::Locked).count() > 1 {
+              continue;
+            }
+            if !thorough && si >= first_pair && m != 0 {
               continue;
             }
             for r in recipients {
